@@ -459,8 +459,13 @@ func Run(sc Scenario) *Result {
 	}
 	waitWG(&consumers, "consumers did not see their channel closed")
 	if sc.LateOps {
-		publish(0, 1, 201)
-		subscribe(SubSpec{Topic: 0, Phase: 3, CancelAtRecv: -1, NestedTopic: -1}, -1)
+		late := make(chan struct{})
+		go func() {
+			defer close(late)
+			publish(0, 1, 201)
+			subscribe(SubSpec{Topic: 0, Phase: 3, CancelAtRecv: -1, NestedTopic: -1}, -1)
+		}()
+		waitCh(late, "Publish/Subscribe after Close did not return")
 	}
 	// ---- goroutine census (quiescence): nothing of the Pub/Sub or the decorator may remain
 	deadline := time.Now().Add(5 * time.Second)
